@@ -325,4 +325,33 @@ theorem depth_race_counterexample :
   · have : (run depthCfg 4 [0] (init [0]) es₂).map (fun s => decide (5 ∈ s.log)) = some false := by decide
     rw [hs₂] at this; simpa using this
 
+/-- `-r -p --no-parent`: page 0 links the ordinary link 2 (outside the start directory) and page 1;
+page 1 embeds 2 as a page requisite.  A row for 2 stored as an ordinary link is skipped; stored as a
+requisite it is requested. -/
+def shadowCfg : Cfg := { visit := fun r =>
+  match r.url with
+  | 0 => ⟨[0], .done, [⟨2, false⟩, ⟨1, false⟩]⟩
+  | 1 => ⟨[1], .done, [⟨2, true⟩]⟩
+  | 2 => if r.inline.isSome then ⟨[2], .done, []⟩ else ⟨[], .skipped, []⟩
+  | _ => ⟨[], .skipped, []⟩ }
+
+/-- **finding `missing-url/requisite-shadowed`**: one worker, no race.  URL 2 is a page requisite of
+the fetched page 1 and is in scope as such (`visit` of its requisite row requests it), but the table keeps
+the record of its first sighting - an out-of-scope ordinary link on page 0 - so it is never requested. -/
+theorem requisite_shadowed_counterexample :
+    ∃ es s, run shadowCfg 3 [0] (init [0]) es = some s ∧ quiescent s = true ∧ 1 ∈ s.log ∧ 2 ∉ s.log ∧
+      (⟨2, true⟩ : Child) ∈ (shadowCfg.visit (startRow 1)).children ∧
+      (shadowCfg.visit (childRow (startRow 1) ⟨2, true⟩)).requests = [2] := by
+  let es : List Ev := [.checkOut, .request 0, .flush 0, .checkIn 0, .checkOut, .flush 2, .checkIn 2,
+    .checkOut, .request 1, .flush 1, .checkIn 1]
+  have h : (run shadowCfg 3 [0] (init [0]) es).isSome = true := by decide
+  obtain ⟨s, hs⟩ := Option.isSome_iff_exists.mp h
+  refine ⟨es, s, hs, ?_, ?_, ?_, by decide, by decide⟩
+  · have : (run shadowCfg 3 [0] (init [0]) es).map quiescent = some true := by decide
+    rw [hs] at this; simpa using this
+  · have : (run shadowCfg 3 [0] (init [0]) es).map (fun s => decide (1 ∈ s.log)) = some true := by decide
+    rw [hs] at this; simpa using this
+  · have : (run shadowCfg 3 [0] (init [0]) es).map (fun s => decide (2 ∈ s.log)) = some false := by decide
+    rw [hs] at this; simpa using this
+
 end Wpull.Crawl
